@@ -50,9 +50,33 @@ var noteRaw = map[*note.Note][]byte{}
 // knownKeys are the key ids for which the Sign contract states its signature
 // facts (hasSig / badSig are binary relations, so the ground instances need the keys).
 var knownKeys []uint64
+var knownNames []string
 
-// RegisterKey makes a key id known to the Sign contract.
-func RegisterKey(k uint64) { knownKeys = append(knownKeys, k) }
+// RegisterKey makes a key id (and the key name that goes with it) known to the note contracts.
+func RegisterKey(k uint64, name string) {
+	knownKeys = append(knownKeys, k)
+	knownNames = append(knownNames, name)
+}
+
+// unverifiedSigs is the UnverifiedSigs field of an opened note: x/mod note.Open puts every
+// signature line whose (name, key hash) its verifier list does not know there, valid or not.
+// Those are lines by registered keys that were not asked for (a witness's own earlier
+// cosignature, another log's key) and lines by keys nobody in the harness knows.
+func unverifiedSigs(raw []byte, verified []uint64) []note.Signature {
+	var out []note.Signature
+	for i, k := range knownKeys {
+		if inKeys(k, verified) {
+			continue
+		}
+		if Or(HasSig(raw, k), BadSig(raw, k)) {
+			out = append(out, note.Signature{Name: knownNames[i], Hash: uint32(UFU64("keyHash", k)), Base64: UFStr("sigB64", raw, k)})
+		}
+	}
+	if UFBool("hasForeignSig", raw) {
+		out = append(out, note.Signature{Name: UFStr("foreignName", raw), Hash: uint32(UFU64("foreignHash", raw)), Base64: UFStr("foreignB64", raw)})
+	}
+	return out
+}
 
 func inKeys(k uint64, keys []uint64) bool {
 	r := false
@@ -137,6 +161,8 @@ func ParseCheckpoint(chkpt []byte, origin string, logSigV note.Verifier, otherSi
 			n.Sigs = append(n.Sigs, note.Signature{Name: otherSigVs[i].Name(), Hash: otherSigVs[i].KeyHash(), Base64: UFStr("sigB64", chkpt, o)})
 		}
 	}
+	verified := append([]uint64{k}, others...)
+	n.UnverifiedSigs = LazySigs(func() []note.Signature { return unverifiedSigs(chkpt, verified) })
 	noteRaw[n] = chkpt
 	return cp, UFBytes("otherData", chkpt), n, nil
 }
@@ -235,6 +261,11 @@ func NoteOpen(msg []byte, known note.Verifiers) (*note.Note, error) {
 	if len(n.Sigs) == 0 {
 		return nil, errOpen
 	}
+	var verified []uint64
+	for _, v := range vl.L {
+		verified = append(verified, keyOf(v))
+	}
+	n.UnverifiedSigs = LazySigs(func() []note.Signature { return unverifiedSigs(msg, verified) })
 	noteRaw[n] = msg
 	return n, nil
 }
